@@ -1,5 +1,5 @@
 // C11 correspondence harness: drives the real baseapp/module.ModList and
-// baseapp.App with scripted modules (synchronous success / failure / panic,
+// baseapp.App with scripted modules (synchronous success / failure / panic before or after reporting,
 // completion delayed to another goroutine or a timer, double completion as the
 // negative stream) and records the log of Start/Stop entries, next() calls and
 // finish() callbacks per op.  The bodies of the shipped modules (which need etcd /
@@ -17,6 +17,7 @@ import (
 	"strings"
 	"sync"
 	"testing"
+	"testing/synctest"
 	"time"
 
 	"cell2verif/hx"
@@ -48,12 +49,13 @@ type caseT struct {
 	app   *baseapp.App
 	node  *nodeapp.App
 	added bool      // node: the launch mode has added the modules
+	readd bool      // node: the launch mode registers n fresh modules every time it runs (default: only the first time)
 	cb    [2]string // what the start- / stop-completion callback does: none | stop | gostop | start
 	log   []string
 	mu    sync.Mutex     // log (a second goroutine writes only when the code under test misbehaves)
 	wg    sync.WaitGroup // goroutines handed a Stop by a module (script token G)
 	fxT   int            // app: success reports of the stop phase seen so far
-	over  bool // app: the stop phase reported success twice; the case is over
+	over  bool           // app: the stop phase reported success twice; the case is over
 }
 
 func (c *caseT) isApp() bool { return c.kind >= 1 }
@@ -63,32 +65,56 @@ const launchMode = "c11verif"
 var (
 	nodeCfgDirs = map[string]string{} // svc pattern -> configuration directory
 	nodeInit    bool
+	defaultSet  bool // baseapp.SetDefaultLaunchFunc has been called (it cannot be undone)
 )
 
-type noopCreator struct{}
+// launchAdder is the harness's launch mode: PrepareModules registers the case's modules; when StartNode
+// runs it again (a second StartNode) it registers as many fresh ones, as a real launch mode does.
+func launchAdder(app interfaces.IApp) {
+	c := cur
+	if c == nil {
+		return
+	}
+	c.logf("P")
+	if !c.added {
+		c.added = true
+		for _, m := range c.mods {
+			app.AddModule(m)
+		}
+		return
+	}
+	if !c.readd {
+		return
+	}
+	for i := 0; i < c.n; i++ {
+		m := &mod{id: len(c.mods), c: c, scripts: [2]string{"T", "T"}}
+		c.mods = append(c.mods, m)
+		app.AddModule(m)
+	}
+}
 
-func (noopCreator) Create(name string) {}
+// the node's services: creating one is logged as V<index> (StartServices runs inside StartNode's completion closure)
+type svcCreator struct{}
+
+func (svcCreator) Create(name string) {
+	if c := cur; c != nil {
+		c.logf("V%s", strings.TrimPrefix(name, "svc"))
+	}
+}
 
 // nodeCfg writes a minimal node configuration: one node, clustering and node control off.  `svc` is
 // the node's service list, one letter per service: P = the service has an entry under `services:`,
 // M = it is named by the node but missing from the services map (tolerated by StartServices: log and skip).
-func nodeCfg(svc, mode, clus string) string {
+func nodeCfg(svc, mode, clus string, nodefault bool) string {
 	if !nodeInit {
 		nodeInit = true
-		nodeservice.Factory.Register("c11svc", noopCreator{})
-		adder := func(app interfaces.IApp) {
-			c := cur
-			if c == nil || c.added { // a launch mode of our own: it adds the case's modules once
-				return
-			}
-			c.added = true
-			for _, m := range c.mods {
-				app.AddModule(m)
-			}
-		}
-		baseapp.RegisterLaunchFunc(launchMode, adder)
+		nodeservice.Factory.Register("c11svc", svcCreator{})
+		baseapp.RegisterLaunchFunc(launchMode, launchAdder)
+	}
+	if !nodefault && !defaultSet {
 		// the same for a node whose StartMode is empty or names a mode nobody registered (LaunchApp falls back)
-		baseapp.SetDefaultLaunchFunc(adder)
+		defaultSet = true
+		baseapp.SetDefaultLaunchFunc(launchAdder)
 	}
 	key := svc + "/" + mode + "/" + clus
 	if d, ok := nodeCfgDirs[key]; ok {
@@ -232,6 +258,71 @@ func (m *mod) Start(next interfaces.FuncWithSucc) { m.run(0, next) }
 func (m *mod) Stop(next interfaces.FuncWithSucc)  { m.run(1, next) }
 
 var cur *caseT
+
+// ---- virtual clock ----------------------------------------------------------------
+// A case whose reset says clock=v runs inside one testing/synctest bubble (a server goroutine that executes
+// op after op): time.AfterFunc / time.After / Sleep are virtual there, so `wait ms=..` lets any amount of
+// time pass for free — "arbitrarily delayed completion".  Nothing in ModList / App is driven by time: while
+// the modules do nothing, nothing may happen, however long that takes.  The bubble has its own current
+// case (channels made in a bubble must not be touched from outside).  Plain ModList and baseapp.App only.
+type bubbleReq struct {
+	op  string
+	out chan string
+}
+
+var (
+	theT        *testing.T
+	bubbleCh    chan bubbleReq
+	bubbleDone  chan struct{}
+	bubbleDead  bool
+	virtualCase bool
+	curV        *caseT
+)
+
+func bubbleExec(op string) string {
+	if bubbleDead {
+		return "blocked"
+	}
+	if bubbleCh == nil {
+		bubbleCh = make(chan bubbleReq)
+		bubbleDone = make(chan struct{})
+		go func() {
+			defer close(bubbleDone)
+			synctest.Test(theT, func(t *testing.T) {
+				for req := range bubbleCh {
+					req.out <- execIn(req.op, &curV, true)
+				}
+				dispose(curV)
+			})
+		}()
+	}
+	out := make(chan string, 1)
+	// real time: a goroutine stuck on a mutex inside the bubble freezes the bubble's clock
+	select {
+	case bubbleCh <- bubbleReq{op, out}:
+	case <-time.After(20 * time.Second):
+		bubbleDead = true
+		return "blocked"
+	}
+	select {
+	case r := <-out:
+		return r
+	case <-time.After(20 * time.Second):
+		bubbleDead = true
+		return "blocked"
+	}
+}
+
+func bubbleClose() {
+	if bubbleCh == nil || bubbleDead {
+		return
+	}
+	close(bubbleCh)
+	select {
+	case <-bubbleDone:
+	case <-time.After(20 * time.Second):
+	}
+}
 
 func scripts(ws []string, key string, n int) []string {
 	v, _ := hx.KV(ws, key)
@@ -382,26 +473,70 @@ func (c *caseT) invoke(ph int) {
 		c.ml.Stop(fin)
 	}
 	c.mu.Lock()
-	refused := len(c.log) == before
+	refused := true // nothing but (node) the launch mode's PrepareModules happened
+	for _, t := range c.log[before:] {
+		if t != "P" {
+			refused = false
+		}
+	}
 	c.mu.Unlock()
 	if refused { // the guard refused: the old phase instance is still the current one
 		for i, m := range c.mods {
-			m.next[ph] = saved[i]
+			if i < len(saved) {
+				m.next[ph] = saved[i]
+			}
 		}
 	}
 }
 
-// exec interprets one op line against the real code.
+// exec interprets one op line against the real code (inside the bubble for a clock=v case).
 func exec(op string) string {
+	ws := hx.Words(op)
+	if len(ws) > 0 && ws[0] == "reset" {
+		v, _ := hx.KV(ws, "clock")
+		virtualCase = v == "v" && hx.KVInt(ws, "app") <= 1
+		// every App's run service uses the process-wide scheduler named "__App__": only one App may be alive
+		if virtualCase {
+			dispose(cur)
+			cur = nil
+		} else if curV != nil {
+			bubbleExec("dispose")
+		}
+	}
+	if virtualCase {
+		return bubbleExec(op)
+	}
+	return execIn(op, &cur, false)
+}
+
+func execIn(op string, pcur **caseT, bubble bool) string {
 	ws := hx.Words(op)
 	if len(ws) == 0 {
 		return "bad-op"
 	}
+	cur := *pcur
 	switch ws[0] {
+	case "dispose":
+		dispose(cur)
+		*pcur = nil
+		return "ok"
+	case "wait": // the modules do nothing for ms milliseconds (virtual); whatever happens meanwhile is the observation
+		c := cur
+		if c == nil {
+			return "bad-op"
+		}
+		if bubble {
+			time.Sleep(time.Duration(hx.KVInt(ws, "ms")) * time.Millisecond)
+			synctest.Wait()
+		}
+		return c.segment("")
 	case "reset":
 		dispose(cur)
 		n := hx.KVInt(ws, "n")
 		c := &caseT{n: n, kind: hx.KVInt(ws, "app")}
+		if v, _ := hx.KV(ws, "readd"); v == "1" {
+			c.readd = true
+		}
 		for ph, key := range []string{"cbS", "cbX"} {
 			c.cb[ph] = "none"
 			if v, ok := hx.KV(ws, key); ok && v != "" {
@@ -428,16 +563,22 @@ func exec(op string) string {
 				}
 			}
 		}
-		cur = c
+		*pcur = c
 		switch c.kind {
 		case 2: // the launch mode adds the modules inside StartNode
 			svc, _ := hx.KV(ws, "svc")
 			mode, _ := hx.KV(ws, "mode")
 			clus, _ := hx.KV(ws, "cluster")
-			dir := nodeCfg(svc, mode, clus)
+			_, nodefault := hx.KV(ws, "nodefault")
+			if nodefault && defaultSet {
+				return "unsupported" // a default launch mode cannot be unset: only the first node case of a process can run without
+			}
+			dir := nodeCfg(svc, mode, clus, nodefault)
 			c.node = nodeapp.NewNode()
 			nodeapp.Node = c.node // the shipped modules find their node through this global
-			c.node.Prepare(dir)
+			if v, _ := hx.KV(ws, "prep"); v != "0" {
+				c.node.Prepare(dir)
+			}
 		case 1:
 			c.app = baseapp.NewApp()
 			c.app.Prepare()
@@ -455,6 +596,11 @@ func exec(op string) string {
 		c, ph := cur, phase(ws)
 		if c == nil || ph < 0 {
 			return "bad-op"
+		}
+		if v, _ := hx.KV(ws, "node"); v == "bad" && c.kind == 2 && ph == 0 {
+			// StartNode with an id that is not in the nodes table
+			r := guarded(func() { c.node.StartNode("nosuchnode", func(succ bool) { c.logf("fs%s", tf(succ)) }) })
+			return c.segment(r)
 		}
 		r := guarded(func() { c.invoke(ph) })
 		return c.segment(r)
@@ -522,10 +668,13 @@ func exec(op string) string {
 // ---- generator --------------------------------------------------------------------
 
 type gen struct {
-	h    *hx.T
-	emit func(op string) string
-	n    int
-	logs [2][]string // tokens of the current instance of each phase, from the observations
+	h     *hx.T
+	emit  func(op string) string
+	n0    int  // modules of the case's reset line
+	seenP bool // (node) the launch mode's PrepareModules has run in this case
+	readd bool // (node) ... and registers n0 fresh modules every time
+	n     int
+	logs  [2][]string // tokens of the current instance of each phase, from the observations
 }
 
 // run executes an op and files the observed tokens under their phase.
@@ -533,6 +682,9 @@ func (g *gen) run(op string) string {
 	obs := g.emit(op)
 	if strings.HasPrefix(op, "reset") {
 		g.n = hx.KVInt(hx.Words(op), "n")
+		g.n0, g.seenP = g.n, false
+		rv, _ := hx.KV(hx.Words(op), "readd")
+		g.readd = rv == "1"
 		g.logs = [2][]string{}
 		return obs
 	}
@@ -540,6 +692,13 @@ func (g *gen) run(op string) string {
 		ph := -1
 		if len(t) >= 2 && t[0] == 'A' && t[1] >= '0' && t[1] <= '9' {
 			g.n++ // a module was registered
+			continue
+		}
+		if t == "P" {
+			if g.seenP && g.readd {
+				g.n += g.n0 // PrepareModules ran again
+			}
+			g.seenP = true
 			continue
 		}
 		switch {
@@ -841,6 +1000,154 @@ func (g *gen) exhaustive(maxN int) {
 	g.h.Stats["exhaustive.cases(n,failpos,syncmask,phase)"] = cases
 }
 
+// panics: a module's Start / Stop panics before it reported (it may hold on to the callback: a report that
+// arrives afterwards must be dropped) or after it reported, at every position, in both phases, inside a
+// synchronous chain under Filter and in a chain that runs outside it (the module entered first completes
+// later).  ModList recovers the panic; a panic before the report counts as that module's failure report.
+func (g *gen) panics(maxN int) {
+	cases := 0
+	for app := 0; app < 3; app++ {
+		for n := 1; n <= maxN; n++ {
+			for p := 0; p < n; p++ {
+				for ph := 0; ph < 2; ph++ {
+					for v := 0; v < 3; v++ { // 0: synchronous chain, 1: chain outside Filter, 2: panic after the report
+						first := 0
+						if ph == 1 {
+							first = n - 1
+						}
+						if v == 1 && p == first {
+							continue
+						}
+						scr := func(i int) string {
+							switch {
+							case i == p && v == 2:
+								return "T!"
+							case i == p:
+								return "!"
+							case v == 1 && i == first:
+								return ""
+							}
+							return "T"
+						}
+						st, sp := join(n, scr), join(n, allT)
+						if ph == 1 {
+							st, sp = sp, st
+						}
+						g.run(fmt.Sprintf("reset n=%d app=%d kind=gen start=%s stop=%s%s", n, app, st, sp, g.svcOpt(app, cases)))
+						g.drive(0, allT)
+						if ph == 0 && v != 2 { // the panicked module reports after all: dropped
+							g.run(fmt.Sprintf("fire ph=S i=%d b=%s via=%s", p, tf(cases%2 == 0), vias[cases%3]))
+						}
+						g.drive(1, allT)
+						if ph == 1 && v != 2 {
+							g.run(fmt.Sprintf("fire ph=X i=%d b=%s via=%s", p, tf(cases%2 == 0), vias[cases%3]))
+						}
+						g.run("begin ph=X")
+						cases++
+					}
+				}
+			}
+		}
+	}
+	g.h.Stats["panics.cases(app,n,pos,phase,kind)"] = cases
+}
+
+// nodecases: what StartNode does around LaunchApp (Node.step of the model): an unknown node id and a node that was
+// never Prepared are refused silently and leave the node startable / untouched; a second StartNode runs the launch
+// mode's PrepareModules again before the App's guard refuses it — with a launch mode that registers its modules every
+// time the list grows, and the next Stop visits modules that were never started.
+func (g *gen) nodecases() {
+	cases := 0
+	for n := 0; n <= 3; n++ {
+		for _, svc := range []string{"", "PM", "MPP"} {
+			for _, mode := range []string{"reg", "empty", "unreg"} {
+				opt := fmt.Sprintf(" svc=%s mode=%s", svc, mode)
+				// unknown node id first, then the real one
+				g.run(fmt.Sprintf("reset n=%d app=2 kind=gen start=%s stop=%s%s", n, join(n, allT), join(n, allT), opt))
+				g.run("begin ph=S node=bad")
+				g.run("begin ph=X")
+				g.drive(0, allT)
+				g.run("begin ph=S node=bad")
+				g.drive(1, allT)
+				// never Prepared
+				g.run(fmt.Sprintf("reset n=%d app=2 kind=gen start=%s stop=%s%s prep=0", n, join(n, allT), join(n, allT), opt))
+				g.run("begin ph=S")
+				g.run("begin ph=X")
+				// StartNode again, with an idempotent launch mode and with one that registers its modules every time
+				for _, readd := range []string{"", " readd=1"} {
+					for d := 0; d < 2; d++ {
+						scr := func(i int) string {
+							if d == 1 && i == 0 {
+								return ""
+							}
+							return "T"
+						}
+						g.run(fmt.Sprintf("reset n=%d app=2 kind=gen start=%s stop=%s%s%s", n, join(n, scr), join(n, allT), opt, readd))
+						g.run("begin ph=S")
+						g.run("begin ph=S")
+						g.settle(0, allT)
+						g.run("begin ph=S")
+						g.drive(1, allT)
+						g.run("begin ph=S")
+						cases++
+					}
+				}
+				cases += 2
+			}
+		}
+	}
+	g.h.Stats["nodecases.cases"] = cases
+}
+
+// how long the modules stay silent (ms of the bubble's virtual clock): from a moment to more than a day
+var waits = []int{1, 999, 10001, 60000, 3600000, 90000000}
+
+// slow: one module takes arbitrarily long to report — at every position, in both phases, on a plain ModList
+// and on an App, under the virtual clock: while it is silent nothing happens (no later module entered, no
+// completion reported), its report then goes on as usual, and nothing happens after the phase is over either.
+func (g *gen) slow(maxN int) {
+	cases := 0
+	for app := 0; app < 2; app++ {
+		for n := 1; n <= maxN; n++ {
+			for p := 0; p < n; p++ {
+				for ph := 0; ph < 2; ph++ {
+					for _, b := range []string{"T", "F"} {
+						scr := func(i int) string {
+							if i == p {
+								return ""
+							}
+							return "T"
+						}
+						st, sp := join(n, scr), join(n, allT)
+						if ph == 1 {
+							st, sp = sp, st
+						}
+						w := func() string {
+							cases++
+							return fmt.Sprintf("wait ms=%d", waits[cases%len(waits)])
+						}
+						g.run(fmt.Sprintf("reset n=%d app=%d kind=gen start=%s stop=%s clock=v", n, app, st, sp))
+						g.run("begin ph=S")
+						if ph == 0 {
+							g.run(w())
+							g.run(fmt.Sprintf("fire ph=S i=%d b=%s via=%s", p, b, vias[cases%3]))
+							g.run(w())
+						}
+						g.run("begin ph=X")
+						if ph == 1 {
+							g.run(w())
+							g.run(w())
+							g.run(fmt.Sprintf("fire ph=X i=%d b=%s via=%s", p, b, vias[cases%3]))
+						}
+						g.run(w())
+						g.h.Count("slow.case")
+					}
+				}
+			}
+		}
+	}
+}
+
 // reentrant: the start-completion callback itself issues Stop (directly, or through another goroutine
 // that runs before the callback returns); the stop-completion callback issues Start / Stop.
 // ModList.Filter holds its (non-reentrant) lock while the synchronous chain of a Start()/Stop() call
@@ -948,9 +1255,19 @@ func (g *gen) randomCase() {
 		st[k] = []string{"A", "a"}[h.R.Intn(2)] + strings.TrimLeft(st[k], "!")
 		h.Count("case.sync-addmodule")
 	}
-	g.run(fmt.Sprintf("reset n=%d app=%d kind=%s start=%s stop=%s%s%s", n, app, kind, strings.Join(st, ","), strings.Join(sp, ","), cb, g.svcOpt(app, h.R.Intn(len(svcPatterns)))))
+	virtual := app <= 1 && h.R.Intn(3) == 0 // under the virtual clock, with silences of any length between the ops
+	clock := ""
+	if virtual {
+		clock = " clock=v"
+		h.Count("case.virtual-clock")
+	}
+	g.run(fmt.Sprintf("reset n=%d app=%d kind=%s start=%s stop=%s%s%s%s", n, app, kind, strings.Join(st, ","), strings.Join(sp, ","), cb, g.svcOpt(app, h.R.Intn(len(svcPatterns))), clock))
 	steps := 2 + h.R.Intn(10)
 	for s := 0; s < steps; s++ {
+		if virtual && h.R.Intn(3) == 0 {
+			g.run(fmt.Sprintf("wait ms=%d", waits[h.R.Intn(len(waits))]))
+			h.Count("op.wait")
+		}
 		r := h.R.Intn(10)
 		switch {
 		case r < 2:
@@ -1049,6 +1366,24 @@ func (g *gen) shipped() {
 				g.run("begin ph=S")
 				g.run("begin ph=X")
 				g.h.Count("shipped.path-replayed")
+				// the same path cut short by a panic of one of its statements: before the report (ModList's wrapper
+				// reports the failure) and after it (only logged) — `shipped_module_one_next`
+				for _, cut := range []string{"!", script + "!"} {
+					cs := func(i int) string {
+						if i == pos {
+							return cut
+						}
+						return "T"
+					}
+					st, sp := join(3, cs), join(3, allT)
+					if m.Phase == "stop" {
+						st, sp = sp, st
+					}
+					g.run(fmt.Sprintf("reset n=3 app=%d kind=shipped start=%s stop=%s name=%s%s", pos%3, st, sp, m.Name, g.svcOpt(pos%3, len(path)+pos)))
+					g.run("begin ph=S")
+					g.run("begin ph=X")
+					g.h.Count("shipped.path-with-panic-replayed")
+				}
 			}
 		}
 		g.h.Count("shipped.body")
@@ -1059,6 +1394,8 @@ func TestRun(t *testing.T) {
 	log.SetOutput(io.Discard)
 	h := hx.Open()
 	defer h.Close()
+	theT = t
+	defer bubbleClose()
 	stuck := 0
 	run := func(op string) string {
 		if stuck >= 3 && hx.ReplayOps() == nil {
@@ -1088,6 +1425,9 @@ func TestRun(t *testing.T) {
 		maxN = 7
 	}
 	g.exhaustive(hx.EnvInt("VERIF_MAXN", maxN))
+	g.panics(4)
+	g.slow(3)
+	g.nodecases()
 	g.reentrant(4)
 	g.inside()
 	g.growing(4)
